@@ -71,17 +71,31 @@ type c09Reg struct {
 }
 
 type c09World struct {
-	f    *flamego.Flame
-	regs []*c09Reg
-	hit  int
-	par  map[string]string
+	inter bool
+	f     *flamego.Flame
+	regs  []*c09Reg
+	hit   int
+	par   map[string]string
 }
 
 // c09Apply executes ops on a fresh Flame; ok=false when an op is not enabled (registration
 // rejected, header target missing, too many registrations).
-func c09Apply(ops []c09Op) (w *c09World, ok bool) {
-	w = &c09World{f: flamego.NewWithLogger(io.Discard), hit: -1}
-	for _, op := range ops {
+func c09Apply(ops []c09Op) (w *c09World, ok bool) { return c09ApplyI(ops, false) }
+
+// c09ApplyI: with interleave, requests are served after every operation (they must not change what
+// later registrations and constraints mean).
+func c09ApplyI(ops []c09Op, interleave bool) (w *c09World, ok bool) {
+	w = &c09World{f: flamego.NewWithLogger(io.Discard), hit: -1, inter: interleave}
+	for oi, op := range ops {
+		if interleave && oi > 0 {
+			for _, method := range c09Methods {
+				for _, path := range c09Paths {
+					for _, hdr := range c09ReqHdrs {
+						c09Serve(w, method, path, hdr)
+					}
+				}
+			}
+		}
 		switch op.Kind {
 		case "reg":
 			if len(w.regs) >= c09MaxRegs {
@@ -182,11 +196,12 @@ func c09Expected(m *ref.Matcher, w *c09World, method, path string, hdr map[strin
 }
 
 type c09Case struct {
-	Ops     []c09Op           `json:"history"`
-	Other   []c09Op           `json:"other_history_reaching_the_same_state,omitempty"`
-	Method  string            `json:"request_method"`
-	Path    string            `json:"path"`
-	Headers map[string]string `json:"request_headers"`
+	Interleaved bool              `json:"requests_served_after_every_operation,omitempty"`
+	Ops         []c09Op           `json:"history"`
+	Other       []c09Op           `json:"other_history_reaching_the_same_state,omitempty"`
+	Method      string            `json:"request_method"`
+	Path        string            `json:"path"`
+	Headers     map[string]string `json:"request_headers"`
 }
 
 func c09Key(w *c09World, kind string, want int, method string) string {
@@ -205,7 +220,7 @@ func c09Probe(m *ref.Matcher, w *c09World, ops []c09Op, l *core.Local) string {
 			for _, hdr := range c09ReqHdrs {
 				l.Evals++
 				hit, _, status, pan := c09Serve(w, method, path, hdr)
-				cs := c09Case{Ops: ops, Method: method, Path: path, Headers: hdr}
+				cs := c09Case{Ops: ops, Method: method, Path: path, Headers: hdr, Interleaved: w.inter}
 				if pan != nil {
 					l.Violate("panic", fmt.Sprintf("ServeHTTP panicked: %v", pan), cs)
 					continue
@@ -287,9 +302,13 @@ func c09Run(r *core.Run) {
 		for i, h := range hist {
 			hops[i] = ops[h]
 		}
-		w, ok := c09Apply(hops)
+		inter := len(hist) >= 2 && (hist[0]+hist[len(hist)-1])%3 == 0
+		w, ok := c09ApplyI(hops, inter)
 		if !ok {
 			return "", false
+		}
+		if inter {
+			l.Extra["histories_with_requests_after_every_operation"]++
 		}
 		m := matchers.Get().(*ref.Matcher)
 		defer matchers.Put(m)
@@ -327,7 +346,7 @@ func c09Replay(raw json.RawMessage) (bool, string) {
 	if err := json.Unmarshal(raw, &c); err != nil {
 		return false, err.Error()
 	}
-	w, ok := c09Apply(c.Ops)
+	w, ok := c09ApplyI(c.Ops, c.Interleaved)
 	if !ok {
 		return false, "history not executable as recorded"
 	}
